@@ -38,7 +38,7 @@ TOL = 1e-11
 
 
 def BOUNDS(tier):
-    return {"members": "ref, strip, block, distorted, curved, renum, aniso(thorough)", "transforms": "none, affine, rigid, length units x 1e-3 / x 1e3 (on distorted)",
+    return {"members": "ref, strip, block, distorted, curved, renum, ring (thin half ring / tube), aniso(thorough)", "transforms": "none, affine, rigid, length units x 1e-3 / x 1e3 (on distorted)",
             "masks": "2*dim planes, C(2*dim,2) unions, all, none, one face", "flags": "only_surface x ensure_3d"}
 
 
@@ -46,7 +46,7 @@ def plan(tier, seed):
     cases = []
     for kind in KINDS:
         mem = ["ref", "strip", "block", "distorted", "renum"] + (["curved"] if kind in zoo.QUADRATIC else []) + (["aniso"] if tier == "thorough" else [])
-        for m in mem:
+        for m in mem + ["ring"]:
             cases.append(dict(key=f"{kind}/{m}/none", kind=kind, member=m, tf="none", seed=seed, cost=10 if kind.startswith("hex") else 1))
         for tf in ("affine", "rigid", "mm", "km"):
             for m in ("distorted",) + (("curved",) if kind in zoo.QUADRATIC else ()):
@@ -120,6 +120,19 @@ def build(case):
     import felupe as fem
 
     kind, member, tf, seed = case["kind"], case["member"], case["tf"], case["seed"]
+    if member == "ring":
+        # a thin, coarse half ring / half tube (wall 8 % of the radius, four cells over 180 degrees, mid nodes on the
+        # arcs): the cells are far from star-shaped with respect to any "centre" of the body or of their own nodes
+        if kind.startswith("hex"):
+            base = fem.Cube(a=(1.0, 0.0, 0.0), b=(1.08, np.pi, 0.3 + zoo.offs(seed, 1) * 0.1), n=(2, 5, 2))
+        else:
+            base = fem.Rectangle(a=(1.0, 0.0), b=(1.08, np.pi), n=(2, 5))
+        base = zoo._finish(base, kind)
+        R, phi = base.points[:, 0], base.points[:, 1]
+        X = base.points.copy()
+        X[:, 0], X[:, 1] = R * np.cos(phi), R * np.sin(phi)
+        mesh = fem.Mesh(X, base.cells, base.cell_type)
+        return mesh, mesh
     mesh = zoo.make(kind, member, seed)
     # topologically identical, axis-aligned, uncurved twin for the plane masks
     twin_member = {"distorted": "block", "curved": "block", "renum": "block"}.get(member, member)
@@ -263,7 +276,7 @@ def run(case):
                     # outward: n . (x_q - centroid of the cell's corner nodes) > 0
                     cen = X[rb.mesh.cells[:, : 2**dim]].mean(1).T  # (dim, f)
                     out = ((xq - cen[:, None, :]) * nrm[:dim]).sum(0)
-                    if out.min() <= 0:
+                    if out.min() <= 0 and case["member"] != "ring":  # (not a valid criterion for thin curved cells)
                         bad(sub + "/outward", "normal must point out of the body", float(out.min()), "> 0")
                     st["traces"] += 3
                 if mask is None:
